@@ -138,22 +138,25 @@ struct Group
     std::vector<size_t> seedIdx;
     std::vector<uint64_t> offset; // prefix sums
     uint64_t total = 0;
+    uint64_t modes = 2; // 2: strict and permissive parser; 1: the mode that reads the seed (strict for 2.0, permissive for 1.x)
 };
-static Group makeGroup(std::function<bool(const Seed &)> pred, bool pairs)
+static bool modeOf(const Group &g, const Seed &s, uint64_t m) { return g.modes == 2 ? m == 0 : !s.legacy; }
+static Group makeGroup(std::function<bool(const Seed &)> pred, bool pairs, uint64_t modes)
 {
     Group g;
+    g.modes = modes;
     for (size_t i = 0; i < seeds().size(); ++i) {
         if (!pred(seeds()[i])) continue;
         g.seedIdx.push_back(i);
         g.offset.push_back(g.total);
         uint64_t n = pairs ? seedInfo(i).reducedIdx.size() : seedInfo(i).devs.size();
-        g.total += (pairs ? n * (n - 1) / 2 : n) * 2;
+        g.total += (pairs ? n * (n - 1) / 2 : n) * modes;
     }
     return g;
 }
-static const Group &groupMathFree() { static Group g = makeGroup([](const Seed &s) { return !s.math; }, false); return g; }
-static const Group &groupMath() { static Group g = makeGroup([](const Seed &s) { return s.math && s.name != "allmath"; }, false); return g; }
-static const Group &groupPairs() { static Group g = makeGroup([](const Seed &s) { return !s.math && !s.opaque; }, true); return g; }
+static const Group &groupMathFree() { static Group g = makeGroup([](const Seed &s) { return !s.math; }, false, 2); return g; }
+static const Group &groupMath() { static Group g = makeGroup([](const Seed &s) { return s.math && s.name != "allmath"; }, false, 1); return g; }
+static const Group &groupPairs() { static Group g = makeGroup([](const Seed &s) { return !s.math && !s.opaque; }, true, 1); return g; }
 
 static size_t locate(const Group &g, uint64_t i, uint64_t &local)
 {
@@ -173,8 +176,8 @@ static void runDev1(const Group &g, uint64_t i, Ctx &c)
     size_t si = locate(g, i, local);
     const Seed &s = seeds()[si];
     const SeedInfo &info = seedInfo(si);
-    const Dev &d = info.devs[local / 2];
-    bool strict = local % 2 == 0;
+    const Dev &d = info.devs[local / g.modes];
+    bool strict = modeOf(g, s, local % g.modes);
     int inapp = 0;
     std::string text = deviate(info, {&d}, &inapp);
     if (text.size() > 65536) { c.outcome("over-64KiB-not-in-domain"); return; }
@@ -187,8 +190,8 @@ static json showDev1(const Group &g, uint64_t i)
     size_t si = locate(g, i, local);
     const Seed &s = seeds()[si];
     const SeedInfo &info = seedInfo(si);
-    const Dev &d = info.devs[local / 2];
-    return json{{"seed", s.name}, {"mode", local % 2 == 0 ? "strict" : "permissive"}, {"deviation", safe(describe(d), 300)}, {"expect_issue", d.why}, {"document", safe(deviate(info, {&d}), 3000)}};
+    const Dev &d = info.devs[local / g.modes];
+    return json{{"seed", s.name}, {"mode", modeOf(g, s, local % g.modes) ? "strict" : "permissive"}, {"deviation", safe(describe(d), 300)}, {"expect_issue", d.why}, {"document", safe(deviate(info, {&d}), 3000)}};
 }
 
 // ---------------------------------------------------------------- family dev2_mf: every pair of deviations from the reduced alphabet
@@ -215,9 +218,9 @@ static void runDev2(uint64_t i, Ctx &c)
     const Seed &s = seeds()[si];
     const SeedInfo &info = seedInfo(si);
     size_t a, b;
-    pairAt(info, local / 2, a, b);
+    pairAt(info, local / g.modes, a, b);
     const Dev &d1 = info.devs[info.reducedIdx[a]], &d2 = info.devs[info.reducedIdx[b]];
-    bool strict = local % 2 == 0;
+    bool strict = modeOf(g, s, local % g.modes);
     int inapp = 0;
     std::string text = deviate(info, {&d1, &d2}, &inapp);
     if (text.size() > 65536) { c.outcome("over-64KiB-not-in-domain"); return; }
@@ -232,9 +235,9 @@ static json showDev2(uint64_t i)
     size_t si = locate(g, i, local);
     const SeedInfo &info = seedInfo(si);
     size_t a, b;
-    pairAt(info, local / 2, a, b);
+    pairAt(info, local / g.modes, a, b);
     const Dev &d1 = info.devs[info.reducedIdx[a]], &d2 = info.devs[info.reducedIdx[b]];
-    return json{{"seed", seeds()[si].name}, {"mode", local % 2 == 0 ? "strict" : "permissive"}, {"deviation1", safe(describe(d1), 300)}, {"deviation2", safe(describe(d2), 300)},
+    return json{{"seed", seeds()[si].name}, {"mode", modeOf(g, seeds()[si], local % g.modes) ? "strict" : "permissive"}, {"deviation1", safe(describe(d1), 300)}, {"deviation2", safe(describe(d2), 300)},
                 {"document", safe(deviate(info, {&d1, &d2}), 3000)}};
 }
 
@@ -272,6 +275,17 @@ int main(int argc, char **argv)
     for (auto &gf : genFamilies()) {
         const GenFamily *p = &gf;
         fs.push_back({gf.name, [p] { return p->count(); }, [p](uint64_t i, Ctx &c) { runGen(*p, i, c); }, [p](uint64_t i) { return showGen(*p, i); }});
+    }
+    if (argc > 1 && std::string(argv[1]) == "devstats") { // size of the deviation alphabet per seed and family (diagnostic)
+        for (size_t i = 0; i < seeds().size(); ++i) {
+            const SeedInfo &si = seedInfo(i);
+            std::map<char, size_t> per;
+            for (auto &d : si.devs) ++per[d.fam];
+            printf("%-16s elements=%zu bytes=%zu devs=%zu reduced=%zu", seeds()[i].name.c_str(), si.elems.size(), si.text.size(), si.devs.size(), si.reducedIdx.size());
+            for (auto &p : per) printf(" %c=%zu", p.first, p.second);
+            printf("\n");
+        }
+        return 0;
     }
     return harnessMain(argc, argv, fs);
 }
